@@ -276,18 +276,30 @@ def run(ctx, anchors=None, failed_step_rule=False):
     for h, n in pops_fail:
         if h not in pushed:
             ctx.fail("R04.2", "pop-without-push:" + h, stepper.loc(n), "%s popped on failure but never pushed" % h)
-    if failed_step_rule:
-        # (decided for C12 / C01, not for C04 whose histories contain no failing step) a failed operation step leaves the
-        # session at the failing operation: every snapshotted field is put back from its snapshot on the failing edge
-        ctx.rule("R04.F", "on the failing edge of the operation step every snapshotted field is restored from its snapshot before the snapshot is dropped")
-        fail_restores = {}
-        for n in stepper.nodes():
+    def restores_of(func, depth=0):
+        """{history vector: [(session field restored from its back(), node in func)]}; restores performed unconditionally by a
+        same-file helper that is handed the session are attributed to the call site"""
+        out = {}
+        for n in func.nodes():
             lhs = rhs = None
             if n["k"] == "assign":
                 lhs, rhs = n["lhs"], n["rhs"]
             elif n["k"] == "opcall" and n["op"] == "=" and len(n["args"]) == 2:
                 lhs, rhs = n["args"]
             if lhs is None:
+                if astq.is_call(n) and n.get("cid") and n.get("cid") != opstep.id and depth < 2 and n.get("args") and n["args"][0] is not None:
+                    passes_env = any(env_fields(norm_root(func, p_), {("parm", 0)}) == () for p_ in astq.paths(n["args"][0], astq.aliases(func)))
+                    if passes_env:
+                        for g in prog.resolve(n["cid"]):
+                            if g.body is None or g.id == func.id or g.file != func.file or not g.params:
+                                continue
+                            gcfg = g.cfg()
+                            gpops = hist_ops(g, "pop_back", depth + 1)
+                            for h_, lst in restores_of(g, depth + 1).items():
+                                for (dst, m) in lst:
+                                    # unconditional in the helper, and before the helper drops that snapshot
+                                    if gcfg.must_pass_from_block(gcfg.entry, [m]) and all(gcfg.dominates(m, p__) for (hh_, p__) in gpops if hh_ == h_):
+                                        out.setdefault(h_, []).append((dst, n))
                 continue
             r = rhs
             while r is not None and r.get("k") == "ctor" and r.get("copy") and r["args"]:
@@ -295,20 +307,93 @@ def run(ctx, anchors=None, failed_step_rule=False):
             while r is not None and r.get("k") == "call" and r.get("callee") in ("std::move", "std::forward") and r["args"]:
                 r = r["args"][0]
             if r is not None and r.get("k") == "mcall" and r.get("n") == "back":
-                hp = efields(stepper, r.get("obj"))
-                lp = efields(stepper, lhs)
+                hp = efields(func, r.get("obj"))
+                lp = efields(func, lhs)
                 if hp and lp:
-                    fail_restores.setdefault(hp[0][0], []).append((lp[0], n))
-            elif r is not None and r.get("k") == "ref" and r.get("dk") == "local":
+                    out.setdefault(hp[0][0], []).append((lp[0], n))
+            elif r is not None and r.get("k") == "ref" and r.get("dk") == "local" and func is stepper:
                 # restored from the snapshot local that becomes the history entry on success
-                lp = efields(stepper, lhs)
+                lp = efields(func, lhs)
                 for h_, d_ in snap_local.items():
                     if d_ == r.get("d") and lp:
-                        fail_restores.setdefault(h_, []).append((lp[0], n))
+                        out.setdefault(h_, []).append((lp[0], n))
+        return out
+
+    # ---- R04.5 an operation that THROWS fails too (script number overflow, ...): Instance::step catches the exception, so the
+    # session lives on - with whatever the stepper had pushed. Every exception type that can escape the operation step (G-EXC)
+    # must be caught in the stepper around the call, by a handler that unconditionally drops (and, for the failed-step rule,
+    # first restores) every snapshot pushed before the call, or no snapshot may be pushed before the call at all.
+    from ..engines import ExcEngine
+    ctx.rule("R04.5", "an operation step that throws leaves no stale snapshot: caught around the call, snapshots dropped in the handler")
+    exc = ExcEngine(prog)
+    esc = {t: w for t, w in exc.escaping(opstep).items()}
+    pre = sorted(h for h in pushed if before[h])
+    tries = [a for a in stepper.ancestors(call) if a.get("k") == "try" and S.contains(a["body"], call)]
+    ctx.site(len(esc))
+
+    def uncond(body):
+        """ids of the nodes of a handler body that execute on every pass through it (not nested in a branch or loop)"""
+        ids = set()
+
+        def go(n):
+            if n is None:
+                return
+            ids.add(id(n))
+            if n.get("k") in ("if", "for", "while", "do", "forrange", "switch", "cond", "try", "lambda"):
+                if n.get("k") == "if":
+                    go(n.get("cond"))
+                return
+            from ..facts import children
+            for c in children(n):
+                if n.get("k") == "bin" and n.get("op") in ("&&", "||") and c is not children(n)[0]:
+                    continue
+                go(c)
+        go(body)
+        return ids
+    order_ = {id(n_): i_ for i_, n_ in enumerate(stepper.nodes())}
+    if esc and pre:
+        uncaught = dict(esc)
+        handler_ok = {}
+        all_pops = hist_ops(stepper, "pop_back")
+        all_rest = restores_of(stepper) if failed_step_rule else {}
+        for t_ in tries:
+            for hd in t_["handlers"]:
+                caught = [ty for ty in list(uncaught) if exc.catches(hd["ty"], ty)]
+                if not caught:
+                    continue
+                for ty in caught:
+                    uncaught.pop(ty)
+                live = uncond(hd["body"])
+                for h in pre:
+                    popped = [n for (hh, n) in all_pops if hh == h and id(n) in live]
+                    okh = bool(popped)
+                    if failed_step_rule:
+                        src = pushed[h][0]
+                        rs = [n for (dst, n) in all_rest.get(h, []) if dst == src and id(n) in live]
+                        okh = okh and bool(rs) and all(order_[id(r_)] <= order_[id(p_)] for r_ in rs[:1] for p_ in popped[:1])
+                    handler_ok.setdefault(h, []).append((okh, hd))
+        for h in pre:
+            res = handler_ok.get(h, [])
+            okh = not uncaught and bool(res) and all(o for (o, hd) in res)
+            wit = sorted(uncaught)[0] if uncaught else None
+            ctx.inst(okh, "R04.5", "snapshot-dropped-on-exception:" + h, stepper.loc(call),
+                     "every exception that can leave the operation step (%s) is caught around the call and the handler %sdrops the entry of %s" % (", ".join(sorted(esc)), "restores the field and " if failed_step_rule else "", h),
+                     ("%s can leave the operation step (%s) while %s holds the snapshot pushed for it; Instance::step catches the exception and the session continues "
+                      "with a stale history entry: a later rewind pops one entry too many (position counter -1, then a read before the start of the listing)"
+                      % (wit, " -> ".join(exc.chain(opstep, wit)[:5]), h)) if wit else
+                     "the handler around the operation step does not unconditionally %sdrop the entry of %s" % ("restore the field and " if failed_step_rule else "", h))
+    else:
+        ctx.ok("R04.5", "snapshot-dropped-on-exception", stepper.loc(call), "no exception can leave the operation step, or nothing is pushed before it")
+
+    if failed_step_rule:
+        # (decided for C12 / C01, not for C04 whose histories contain no failing step) a failed operation step leaves the
+        # session at the failing operation: every snapshotted field is put back from its snapshot on the failing edge
+        ctx.rule("R04.F", "on the failing edge of the operation step every snapshotted field is restored from its snapshot before the snapshot is dropped")
+        fail_restores = restores_of(stepper)
         for h, (src, pn) in sorted(pushed.items()):
             rs = [(dst, n) for (dst, n) in fail_restores.get(h, []) if dst == src]
             ns = [n for (hh, n) in pops_fail if hh == h]
-            ok = bool(rs) and cfg.must_pass_from_block(fail_succ, [n for (d_, n) in rs]) and all(any(cfg.dominates(n, p_) for (d_, n) in rs) for p_ in ns)
+            ok = bool(rs) and cfg.must_pass_from_block(fail_succ, [n for (d_, n) in rs]) and all(any(n is p_ or cfg.dominates(n, p_) for (d_, n) in rs) for p_ in ns)
             ctx.site()
             ctx.inst(ok, "R04.F", "restored-on-failure:" + h, stepper.loc(rs[0][1]) if rs else stepper.loc(call),
                      "after a failed operation '%s' is put back from %s before the snapshot is dropped" % (".".join(src or ("?",)), h),
@@ -464,18 +549,23 @@ def run(ctx, anchors=None, failed_step_rule=False):
 
 
 MUTANTS = [
-    dict(name="opcode_pos-not-restored", file="debugger/interpreter.cpp", find="\n    env.opcode_pos = env.opcode_pos_history.back();\n", replace="\n", expect=["R04.1:field=opcode_pos", "R04.2:restore:opcode_pos_history"]),
-    dict(name="opcount-recomputed-on-rewind", file="debugger/interpreter.cpp", find="\n    env.nOpCount = env.nOpCount_history.back();\n", replace="\n    if (env.nOpCount > 0) env.nOpCount--;\n", expect=["R04.1:restored-from-snapshot=nOpCount", "R04.2:restore:nOpCount_history"]),
+    dict(name="handler-does-not-undo", file="debugger/interpreter.cpp", find="            UndoFailedStep(env);\n            throw;\n", replace="            throw;\n", expect=["R04.5:snapshot-dropped-on-exception"]),
+    dict(name="step-not-guarded-by-try", file="debugger/interpreter.cpp", regex=True, find=r"        try \{\n            if \(!StepScript\(env, pc\)\) \{\n                UndoFailedStep\(env\);\n                return false;\n            \}\n        \} catch \(\.\.\.\) \{\n.*?            throw;\n        \}\n",
+         replace="        if (!StepScript(env, pc)) {\n            UndoFailedStep(env);\n            return false;\n        }\n", expect=["R04.5:snapshot-dropped-on-exception"]),
+    dict(name="handler-only-for-std-exception-subtype", file="debugger/interpreter.cpp", find="        } catch (...) {\n            // an operation that throws", replace="        } catch (const std::out_of_range&) {\n            // an operation that throws", expect=["R04.5:snapshot-dropped-on-exception"]),
+    dict(name="handler-undo-conditional", file="debugger/interpreter.cpp", find="            UndoFailedStep(env);\n            throw;\n", replace="            if (env.stack_history.size() > 1) UndoFailedStep(env);\n            throw;\n", expect=["R04.5:snapshot-dropped-on-exception"]),
+    dict(name="opcode_pos-not-restored", file="debugger/interpreter.cpp", after="bool RewindScript(InterpreterEnv& env)",  find="\n    env.opcode_pos = env.opcode_pos_history.back();\n", replace="\n", expect=["R04.1:field=opcode_pos", "R04.2:restore:opcode_pos_history"]),
+    dict(name="opcount-recomputed-on-rewind", file="debugger/interpreter.cpp", after="bool RewindScript(InterpreterEnv& env)",  find="\n    env.nOpCount = env.nOpCount_history.back();\n", replace="\n    if (env.nOpCount > 0) env.nOpCount--;\n", expect=["R04.1:restored-from-snapshot=nOpCount", "R04.2:restore:nOpCount_history"]),
     dict(name="empty-history-guard-removed", file="debugger/interpreter.cpp", find="    if (env.stack_history.size() == 0) {\n        printf(\"no stack history\\n\");\n        return false;\n    }\n", replace="", expect=["R04.3:RewindScript:has-refusal", "R04.3:history-read-guarded"]),
-    dict(name="drop-restore-vfExec", file="debugger/interpreter.cpp", find="\n    env.vfExec = env.vfExec_history.back();\n", replace="\n", expect=["R04.1:field=vfExec", "R04.2:restore:vfExec_history"]),
-    dict(name="drop-execdata-history", file="debugger/interpreter.cpp", regex=True, find=r"        env\.execdata_history\.push_back\(env\.execdata\);\n(.*?)            env\.execdata_history\.pop_back\(\);\n(.*?)    env\.execdata = env\.execdata_history\.back\(\);\n(.*?)    env\.execdata_history\.pop_back\(\);\n",
-         replace=r"\1\2\3", expect=["R04.1:field=execdata"]),
+    dict(name="drop-restore-vfExec", file="debugger/interpreter.cpp", after="bool RewindScript(InterpreterEnv& env)",  find="\n    env.vfExec = env.vfExec_history.back();\n", replace="\n", expect=["R04.1:field=vfExec", "R04.2:restore:vfExec_history"]),
+    dict(name="drop-execdata-history", file="debugger/interpreter.cpp", regex=True, find=r"    env\.execdata = env\.execdata_history\.back\(\);\n(.*?)    env\.execdata_history\.pop_back\(\);\n(.*?)        env\.execdata_history\.push_back\(env\.execdata\);\n(.*?)    env\.execdata = env\.execdata_history\.back\(\);\n(.*?)    env\.execdata_history\.pop_back\(\);\n",
+         replace=r"\1\2\3\4", expect=["R04.1:field=execdata"]),
     dict(name="rewind-guard-by-history-emptiness", file="instance.cpp", find="    if (env->pc == env->script.begin()) {\n        return false;\n    }\n    if (env->done) {",
          replace="    if (env->stack_history.empty()) {\n        return false;\n    }\n    if (env->done) {", expect=["R04.4:no-rewind-across-script-switch"]),
-    dict(name="drop-restore-altstack", file="debugger/interpreter.cpp",
+    dict(name="drop-restore-altstack", file="debugger/interpreter.cpp", after="bool RewindScript(InterpreterEnv& env)", 
          find="\n    env.altstack = env.altstack_history.back();\n", replace="\n",
          expect=["R04.1:field=altstack", "R04.2:restore:altstack_history"]),
-    dict(name="cross-wire-altstack-from-stack_history", file="debugger/interpreter.cpp",
+    dict(name="cross-wire-altstack-from-stack_history", file="debugger/interpreter.cpp", after="bool RewindScript(InterpreterEnv& env)", 
          find="\n    env.altstack = env.altstack_history.back();", replace="\n    env.altstack = env.stack_history.back();",
          expect=["R04.2:restore"]),
     dict(name="drop-counter-decrement", file="debugger/interpreter.cpp",
@@ -502,17 +592,22 @@ def AUTO_MUTANTS(ctx):
     out = []
     import re as _re
     hs = sorted(set(_re.findall(r"env\.(\w+_history)\.push_back", src)))
+    RW = "bool RewindScript(InterpreterEnv& env)"
+    if src.count(RW) != 1:
+        return out
+    pre, post = src[:src.index(RW)], src[src.index(RW):]
     for h in hs:
         m = _re.search(r"        env\.%s\.push_back\(env\.(\w+)\);\n" % h, src)
         if m and src.count(m.group(0)) == 1:
             out.append(dict(name="auto:drop-push:" + h, file="debugger/interpreter.cpp", find=m.group(0), replace="", expect=["R04."]))
-        pf = "            env.%s.pop_back();\n" % h
-        if src.count(pf) == 1:
-            out.append(dict(name="auto:drop-failure-pop:" + h, file="debugger/interpreter.cpp", find=pf, replace="", expect=["R04.2:pop-on-failure:" + h]))
-        m = _re.search(r"    env\.(\w+) = env\.%s\.back\(\);\n" % h, src)
-        if m and src.count(m.group(0)) == 1:
-            out.append(dict(name="auto:drop-restore:" + h, file="debugger/interpreter.cpp", find=m.group(0), replace="", expect=["R04.1:", "R04.2:restore:" + h]))
+        # failure side (the stepper or its undo helper, before RewindScript in the file); rewind side after it
+        m = _re.search(r"\n( +)env\.%s\.pop_back\(\);\n" % h, pre)
+        if m and pre.count(m.group(0)) == 1:
+            out.append(dict(name="auto:drop-failure-pop:" + h, file="debugger/interpreter.cpp", before=RW, find=m.group(0), replace="\n", expect=["R04.2:pop-on-failure:" + h, "R04.5:snapshot-dropped-on-exception:" + h]))
+        m = _re.search(r"    env\.(\w+) = env\.%s\.back\(\);\n" % h, post)
+        if m and post.count(m.group(0)) == 1:
+            out.append(dict(name="auto:drop-restore:" + h, file="debugger/interpreter.cpp", after=RW, find=m.group(0), replace="", expect=["R04.1:", "R04.2:restore:" + h]))
         pr = "    env.%s.pop_back();\n" % h
-        if src.count(pr) == 1:
-            out.append(dict(name="auto:drop-rewind-pop:" + h, file="debugger/interpreter.cpp", find=pr, replace="", expect=["R04.2:pop-after-restore:" + h]))
+        if post.count(pr) == 1:
+            out.append(dict(name="auto:drop-rewind-pop:" + h, file="debugger/interpreter.cpp", after=RW, find=pr, replace="", expect=["R04.2:pop-after-restore:" + h]))
     return out
